@@ -44,6 +44,16 @@ def facts_controls(ctx, rep):
         got.setdefault(i.fn.cname, []).append(ok)
     if not (got.get("strip_bad") and not any(got["strip_bad"]) and got.get("strip_ok") and all(got["strip_ok"])):
         _fail(rep, "end-index", "end-indexed string control: %s" % got)
+    imod = ctx.fixture("fx_facts", inline=True)
+    sel = {}
+    for fname in ("flagsel_ok", "flagsel_bad"):
+        fn = imod.fn(fname)
+        F = Facts(fn)
+        ps = PathStates(fn, F, {"low": ("sge", ("load", ("gep", ANY, [ANY])), 97)}, correlate=True)
+        calls = [c for c in fn.insts() if c.op == "call" and imod.callee_cname(c) == "touch"]
+        sel[fname] = bool(calls) and not any(holds(st, "low") for c in calls for st in ps.at_block(c.block.id))
+    if sel != {"flagsel_ok": True, "flagsel_bad": False}:
+        _fail(rep, "flag-select", "flag correlation through helper returns/selects: %s" % sel)
     rep.extra.setdefault("positive_controls", {})["facts/paths/callgraph"] = "fired on the violating twins, silent on the conforming ones"
 
 
